@@ -7,7 +7,9 @@ from spec import fsm_graph as G
 from symx import sand
 
 PROPERTY = 'C02'
-STEPS = ['tick', 'state_event', 'restart', 'shutdown', 'end_sync', 'process_crash']
+BASE_STEPS = ['tick', 'state_event', 'restart', 'shutdown', 'end_sync', 'process_crash']
+# peer_failure: the INSTANCE_FAILURE notification of a proxy thread (an XML-RPC to that peer failed) - the peer may be the Master
+STEPS = BASE_STEPS + ['peer_failure']
 
 
 def do_step(src, core, sit, steps=STEPS):
@@ -51,6 +53,8 @@ def do_step(src, core, sit, steps=STEPS):
             if 'no Master instance' not in str(exc):
                 raise
             sit['fault'] = True
+    elif step == 'peer_failure':
+        core.fsm.on_instance_failure(core.context.instances[ids[sit['ev_from']]])
     elif step == 'process_crash':
         from supvisors.ttypes import RunningFailureStrategies
         strategy = src.choice('rfs', list(RunningFailureStrategies))
@@ -116,7 +120,7 @@ def check_invariant(src, core, sit):
 
 def pick_step(src, n, steps=STEPS):
     step = src.pick('step', list(steps))
-    ev_from = src.pick_int('ev_from', 1, n - 1) if step == 'state_event' else None
+    ev_from = src.pick_int('ev_from', 1, n - 1) if step in ('state_event', 'peer_failure') else None
     return step, ev_from
 
 
